@@ -242,10 +242,16 @@ def mutation_history_laws(ctx, n, rng):
                 lambda: f'after in-place updates {history} the transform {t} no longer satisfies inverse/action laws: -t = {-t}, '
                         f'fresh inverse = {-fresh}', pl)
             what = rng.choice(['position', 'orientation', 'both'])
-            if what in ('position', 'both'):
-                t.position = Position(rng.randint(-9, 9), rng.randint(-9, 9))
-            if what in ('orientation', 'both'):
-                t.orientation = rng.choice(O)
+            try:
+                if what in ('position', 'both'):
+                    t.position = Position(rng.randint(-9, 9), rng.randint(-9, 9))
+                if what in ('orientation', 'both'):
+                    t.orientation = rng.choice(O)
+            except AttributeError:
+                # transforms that cannot be updated in place (an immutable value type): continue with a new value - there is
+                # then no in-place history to be stale about, the laws are simply checked on more values
+                t = Transform(Position(rng.randint(-9, 9), rng.randint(-9, 9)), rng.choice(O))
+                what = 'replaced'
             history.append(what)
         # the same through an Agent (setters write into its transform)
         from gym_gridverse.agent import Agent
